@@ -86,6 +86,9 @@ class extract_visitor(NodeVisitor):
     def visit_Assign(self, node):
         # type: (ast.Assign) -> None
         eend = get_expr_end(node.value)
+        # the value is evaluated before the targets are bound: a comprehension
+        # in it forks the flow and must not see them
+        self.visit(node.value)
         for targets in node.targets:
             for name, _ in get_indexes_for_target(targets, [], []):
                 if isinstance(name, Attribute):
@@ -96,7 +99,8 @@ class extract_visitor(NodeVisitor):
                     name.flow = self.flow  # type: ignore[attr-defined]
                     self.flow.add_name(AssignedName(name.id, eend, np(name), node.value))
 
-        self.generic_visit(node)
+        for targets in node.targets:
+            self.visit(targets)
 
     def visit_AnnAssign(self, node):
         # type: (ast.AnnAssign) -> None
@@ -104,6 +108,9 @@ class extract_visitor(NodeVisitor):
             eend = get_expr_end(node.value)
         else:
             eend = get_expr_end(node)
+        self.visit(node.annotation)
+        if node.value:
+            self.visit(node.value)
         name = node.target
         if isinstance(name, Attribute):
             self.top.add_attr_assign(self.flow.scope, name, node.value)  # type: ignore[arg-type]  # TODO
@@ -112,7 +119,7 @@ class extract_visitor(NodeVisitor):
         elif node.value:
             name.flow = self.flow  # type: ignore[attr-defined]
             self.flow.add_name(AssignedName(name.id, eend, np(name), node.value))
-        self.generic_visit(node)
+        self.visit(node.target)
 
     def visit_If(self, node):
         # type: (ast.If) -> None
@@ -343,10 +350,13 @@ class extract_visitor(NodeVisitor):
             items = node.items
 
         for it in items:
+            self.visit(it.context_expr)
             if it.optional_vars:
                 self.bind_target(self.flow, it.optional_vars, get_expr_end(it.context_expr), node)
+                self.visit(it.optional_vars)
 
-        self.generic_visit(node)
+        for n in node.body:
+            self.visit(n)
 
     visit_AsyncWith = visit_With
 
@@ -366,10 +376,10 @@ class extract_visitor(NodeVisitor):
     def visit_NamedExpr(self, node):
         # type: (ast.NamedExpr) -> None
         eend = get_expr_end(node.value)
+        self.visit(node.value)
         name = node.target
         name.flow = self.flow  # type: ignore[attr-defined]
         self.flow.add_name(AssignedName(name.id, eend, np(name), node.value))
-        self.generic_visit(node)
 
 
 extract = visitor(extract_visitor)
